@@ -77,6 +77,7 @@ def run(ctx):
     with impl.quiet():
         cells = _t(ctx, 'corpus', corpus, ctx, impl)
         cells += _t(ctx, 'matrix', matrix, ctx, impl)
+    _t(ctx, 'closed_world', closed_world, ctx)
     model_ok = bytes_ok = keys_ok = ok
     if not ok:
         model_ok, _ = build(ctx, ["lib/Identity.vo"])
@@ -113,6 +114,29 @@ def run(ctx):
         ctx.note("proof broken AND a failing input was found (reported above)")
 
 
+def closed_world(ctx):
+    """mutation test of the translator's closed-world reading (translate/g_identity.py gen_entry): the paths to switchToBanana /
+    Tub.brokerAttached that the byte-level model has are all there are.  Each mutant opens another path (doNegotiation not True, a
+    new caller, a stored bound method, access by name, another module, a subclass) without touching any statement the other
+    translators read; the translator must refuse every one of them and accept the tree as it is."""
+    try:
+        from translate import g_identity
+        rows = g_identity.closed_world_selftest(limit=ctx.n(4, None))
+    except Exception as e:          # the translator itself broke: ctx.coq_build has reported / will report it
+        ctx.note("closed-world mutation test not run: %s: %s" % (type(e).__name__, str(e)[:200]))
+        return
+    ctx.extra["closed_world_mutants"] = [[n, ok_, msg[:120]] for n, ok_, msg in rows]
+    if rows and rows[0][0] == "unchanged" and not rows[0][1]:
+        return                      # generate() failed for this tree; reported as translator failure / proof-broken
+    for name, ok_, msg in rows[1:]:
+        ctx.hist("closed_world", "refused" if ok_ else "ACCEPTED")
+        if not ok_:
+            ctx.fail("translator/closed-world-not-enforced",
+                     "the translator accepted a package in which switchToBanana / Tub.brokerAttached is reachable by a path the "
+                     "model does not have (mutant: %s); every theorem about brecv_all would hold vacuously of such a tree" % name,
+                     replay=dict(mutant=name), has_input=False)
+
+
 def _t(ctx, name, fn, *args):
     """run one section, recording its wall and child-inclusive CPU seconds in the evidence"""
     import time, os
@@ -126,7 +150,7 @@ def _t(ctx, name, fn, *args):
 MY_CLOSURE = ("gen/IdentityGen.v", "gen/NegotiateGen.v", "lib/PyLite.v", "lib/Negotiate.v", "lib/NegotiateProofs.v",
               "lib/Identity.v", "lib/IdentityProofs.v", "lib/NegBytes.v", "lib/NegSplit.v", "lib/IdentityBytes.v",
               "lib/IdentityBytesProofs.v", "lib/IdentityBytesReal.v", "lib/IdentityBytesRealProofs.v", "lib/IdentityKeys.v",
-              "lib/IdentityKeysProofs.v", "lib/NegCodec.v", "gen/NegCodecGen.v", "lib/NegWire.v", "props/C05.v")
+              "lib/IdentityKeysProofs.v", "lib/IdentityComposeProofs.v", "lib/NegCodec.v", "gen/NegCodecGen.v", "lib/NegWire.v", "props/C05.v")
 
 
 def build(ctx, targets):
@@ -1158,7 +1182,7 @@ Fixpoint btrace (tid : Z -> list Z) (me : endpoint) (redir : list Z -> bool) (r 
         stream = " ++ ".join(bname[(a, t["leaf"], t["x"], n)] for n in t["names"])
         tgt = "id%s_%s" % (t["x"], a) if t["role"] == "Client" else "[]"
         redir = "(fun i => list_eqb i idC_%s)" % a if t["redirect_c"] else "(fun _ => false)"
-        return "btrace tid_%s me_%s %s %s %s %s b_init (cut %s (%s))" % (a, a, redir, t["role"], tgt, pres(t["leaf"], t["extras"]),
+        return "btrace tid_%s me_%s %s %s %s %s (b_connection_made %s %s) (cut %s (%s))" % (a, a, redir, t["role"], tgt, pres(t["leaf"], t["extras"]), t["role"], tgt,
                                                                           coq_list("%d%%Z" % n for n in t["lens"]), stream)
     pnum = dict(PhPlaintext=0, PhEncrypted=1, PhDeciding=2, PhBanana=3, PhAbandoned=4)
     nbad = 0
